@@ -1,7 +1,7 @@
 #!/bin/sh
 # Generate /verif/harness/go.mod + go.sum from /repo/go.mod (replace directives are not inherited).
 set -e
-H=/verif/harness
+H=${VERIF_HOME:-/verif}/harness
 R=${VERIF_REPO:-/repo}
 {
   echo "module verif/harness"
